@@ -19,6 +19,14 @@ class Panic(Exception):
         self.msg = msg
 
 
+class Yield(Exception):
+    """A scheduling point (lock acquisition in a multi-threaded exploration): the job's `on_yield`
+    callback receives the state paused *before* the yielding terminator and returns successor states."""
+
+    def __init__(self, info):
+        self.info = info
+
+
 class Unsupported(MirError):
     pass
 
@@ -204,6 +212,7 @@ class Executor:
         self._model_cache = {}
         self.flip_site = None  # planted mutant: negate the comparison at the k-th distinct static site
         self._cmp_sites = []
+        self.on_yield = None  # scheduler callback for multi-threaded exploration
         self.auto = None  # RiviaIndex: any callee that is rivia code runs from its MIR
         self.drop_hook = None  # called for MIR `drop(place)` terminators: may return a (fn, args) to run
 
@@ -903,6 +912,11 @@ class Executor:
                             raise Unsupported("fork inside a plain statement: " + str(f.cond))
                         snap = st
                     self._fork(work, snap, f)
+                    break
+                except Yield as y:
+                    if self.on_yield is None:
+                        raise Unsupported("scheduling point without a scheduler")
+                    work.extend(self.on_yield(snap if snap is not None else st, y))
                     break
                 except Panic as p:
                     st.panic, st.done = p.msg, True
